@@ -150,7 +150,8 @@ class ShuffleContinuumSampler(AbstractContinuumSampler):
         a segment (weighted by its length) and then using uniform distribution in it.
         """
         segments = np.array(segments)
-        weights = np.array(list(segment.end - segment.start for segment in segments))
+        # float weights, also when the bounds of the segments are integers
+        weights = np.array(list(segment.end - segment.start for segment in segments), dtype=np.float64)
         weights /= np.sum(weights)
         try:
             segment = np.random.choice(np.array(segments), p=weights)
